@@ -52,7 +52,16 @@ def make_poly_model(in_names, out_terms, alpha_effect=None, log=None, cost=None)
             log.append((None if model_fidelity is None else np.atleast_2d(model_fidelity).tolist(),
                         {n: np.atleast_1d(inputs[n]).tolist() for n in in_names}))
         if cost is not None:
-            ret['model_cost'] = np.full(np.shape(np.atleast_1d(xs[0])), float(cost))
+            nsamp = np.shape(np.atleast_1d(xs[0]))
+            if isinstance(cost, tuple):        # ('by_alpha', base): the reported cost depends on the model fidelity, base * (1 + 7 sum(alpha))
+                if model_fidelity is None:
+                    ret['model_cost'] = np.full(nsamp, float(cost[1]))
+                else:
+                    mf = np.atleast_2d(np.asarray(model_fidelity))
+                    rows = mf if mf.shape[0] == nsamp[0] else np.repeat(mf[:1], nsamp[0], axis=0)
+                    ret['model_cost'] = np.array([float(cost[1]) * (1 + 7 * int(np.sum(r))) for r in rows])
+            else:
+                ret['model_cost'] = np.full(nsamp, float(cost))
         return ret
     model.__name__ = 'poly_model'
     return model
